@@ -225,6 +225,14 @@ class DBStorage(BaseStorage):
         """
 
         if event.is_replaceable or event.is_paramaterized_replaceable:
+            # an event that is already stored must not supersede anything again
+            result = await conn.execute(
+                sa.select(self.EventTable.c.id).where(
+                    self.EventTable.c.id == event.id_bytes
+                )
+            )
+            if result.first():
+                return False
             # check for older event from same pubkey
             query = sa.select(
                 self.EventTable.c.id,
